@@ -231,15 +231,15 @@ theorem sim_clearCache :
   exact ⟨rfl, ⟨hR.1, inv_clear hR.2⟩, fun _ _ => trivial⟩
 
 theorem sim_readAndCache {n : NodeId} {r : Reg} {a : Int} (buflen : Nat)
-    (hn : g[n]? = some (.reg r)) (hk : KeyAddr p r a) :
-    Sim p g (fun _ => True) (readAndCache defaultCache g n r a buflen)
+    (hn : g[n]? = some (.reg r)) (hk : KeyAddr p g r a) :
+    Sim p g (fun bs => bs.length = r.len) (readAndCache defaultCache g n r a buflen)
       (readAndCache sinkCache g n r a buflen) := by
   intro sC sU hR
   obtain ⟨hdev, hinv⟩ := hR
   rw [readAndCache_eq, readAndCache_eq]
   by_cases h1 : buflen ≠ r.len
   · rw [if_pos h1, if_pos h1]
-    exact ⟨rfl, ⟨hdev, hinv⟩, fun _ _ => trivial⟩
+    exact ⟨rfl, ⟨hdev, hinv⟩, fun _ hb => by cases hb⟩
   · by_cases h2 : g[r.port]? = some .port
     · rw [if_neg h1, if_neg h1, if_pos h2, if_pos h2]
       have hp := devRel_peek hdev a r.len
@@ -247,7 +247,7 @@ theorem sim_readAndCache {n : NodeId} {r : Reg} {a : Int} (buflen : Nat)
       | some bs =>
         rw [← hp, hc]
         dsimp only
-        refine ⟨rfl, ⟨devRel_log_keep hdev _, ?_⟩, fun _ _ => trivial⟩
+        refine ⟨rfl, ⟨devRel_log_keep hdev _, ?_⟩, fun b hb => by cases hb; exact peek_length hc⟩
         dsimp only
         refine inv_dev_congr (d := sC.dev) ?_ (fun _ _ => rfl)
         show Inv p g (if r.mode ≠ .noCache then Store.cache sC.cache n a r.len bs else sC.cache) sC.dev
@@ -259,13 +259,15 @@ theorem sim_readAndCache {n : NodeId} {r : Reg} {a : Int} (buflen : Nat)
       | none =>
         rw [← hp, hc]
         dsimp only
-        exact ⟨rfl, ⟨devRel_log_keep hdev _, inv_dev_congr hinv (fun _ _ => rfl)⟩, fun _ _ => trivial⟩
+        exact ⟨rfl, ⟨devRel_log_keep hdev _, inv_dev_congr hinv (fun _ _ => rfl)⟩,
+          fun _ hb => by cases hb⟩
     · rw [if_neg h1, if_neg h1, if_neg h2, if_neg h2]
-      exact ⟨rfl, ⟨hdev, hinv⟩, fun _ _ => trivial⟩
+      exact ⟨rfl, ⟨hdev, hinv⟩, fun _ hb => by cases hb⟩
 
 theorem sim_cachedRead {n : NodeId} {r : Reg} {a : Int}
-    (hn : g[n]? = some (.reg r)) (hk : KeyAddr p r a) :
-    Sim p g (fun _ => True) (cachedRead defaultCache g n r a) (cachedRead sinkCache g n r a) := by
+    (hn : g[n]? = some (.reg r)) (hk : KeyAddr p g r a) :
+    Sim p g (fun bs => bs.length = r.len) (cachedRead defaultCache g n r a)
+      (cachedRead sinkCache g n r a) := by
   intro sC sU hR
   have hU : cachedRead sinkCache g n r a sU = readAndCache sinkCache g n r a r.len sU := rfl
   cases hget : sC.cache.get n a r.len with
@@ -292,10 +294,11 @@ theorem sim_cachedRead {n : NodeId} {r : Reg} {a : Int}
       exact hinv.coherent _ _ _ _ hget
     rw [hC, hU, readAndCache_eq, if_neg (by simp), if_pos hport, hpk]
     dsimp only
-    exact ⟨rfl, ⟨devRel_log_drop hdev _ rfl rfl, hinv⟩, fun _ _ => trivial⟩
+    exact ⟨rfl, ⟨devRel_log_drop hdev _ rfl rfl, hinv⟩,
+      fun b hb => by cases hb; exact peek_length (hinv.coherent _ _ _ _ hget)⟩
 
 theorem sim_writeAt (hD : Declared p g) {n : NodeId} {r : Reg} {a : Int} {buf : Bytes}
-    (hn : g[n]? = some (.reg r)) (hk : KeyAddr p r a) (hlen : buf.length = r.len) :
+    (hn : g[n]? = some (.reg r)) (hk : KeyAddr p g r a) (hlen : buf.length = r.len) :
     Sim p g (fun _ => True) (writeAt defaultCache g n r a buf) (writeAt sinkCache g n r a buf) := by
   intro sC sU hR
   obtain ⟨hdev, hinv⟩ := hR
@@ -358,8 +361,8 @@ theorem addI64_ok {p : Profile} {a b c : Int} (h : addI64 p a b = .ok c)
   · simp at h
 
 theorem sim_regAddr {evC : NodeId → M Store Int} {evU : NodeId → M Unit Int}
-    (hev : ∀ m, Sim p g (fun _ => True) (evC m) (evU m)) (r : Reg) :
-    Sim p g (KeyAddr p r) (regAddr p evC r) (regAddr p evU r) := by
+    (hev : ∀ m, Sim p g (InSelRange g m) (evC m) (evU m)) (r : Reg) :
+    Sim p g (KeyAddr p g r) (regAddr p evC r) (regAddr p evU r) := by
   unfold regAddr
   cases hs : r.sel with
   | none =>
@@ -368,25 +371,25 @@ theorem sim_regAddr {evC : NodeId → M Store Int} {evU : NodeId → M Unit Int}
   | some so =>
     obtain ⟨s, off⟩ := so
     dsimp only
-    refine sim_bind (hev s) (fun k _ => ?_)
+    refine sim_bind (hev s) (fun k hk => ?_)
     refine sim_bind (sim_lift (P := fun prod => p.overflowChecks = true → prod = k * off) _
       (fun c hc hp => mulI64_ok hc hp)) (fun prod hprod => ?_)
     refine sim_lift _ (fun a ha => ?_)
     unfold KeyAddr
     rw [hs]
     intro hp
-    exact ⟨k, by rw [addI64_ok ha hp, hprod hp]⟩
+    exact ⟨k, by rw [addI64_ok ha hp, hprod hp], hk⟩
 
 theorem sim_withCacheOrRead {evC : NodeId → M Store Int} {evU : NodeId → M Unit Int}
-    (hev : ∀ m, Sim p g (fun _ => True) (evC m) (evU m)) {n : NodeId} {r : Reg}
+    (hev : ∀ m, Sim p g (InSelRange g m) (evC m) (evU m)) {n : NodeId} {r : Reg}
     (hn : g[n]? = some (.reg r)) :
-    Sim p g (fun _ => True) (withCacheOrRead defaultCache p g evC n r)
+    Sim p g (fun bs => bs.length = r.len) (withCacheOrRead defaultCache p g evC n r)
       (withCacheOrRead sinkCache p g evU n r) := by
   unfold withCacheOrRead
   exact sim_bind (sim_regAddr hev r) (fun a hk => sim_cachedRead hn hk)
 
 theorem sim_writeAndCache (hD : Declared p g) {evC : NodeId → M Store Int}
-    {evU : NodeId → M Unit Int} (hev : ∀ m, Sim p g (fun _ => True) (evC m) (evU m))
+    {evU : NodeId → M Unit Int} (hev : ∀ m, Sim p g (InSelRange g m) (evC m) (evU m))
     {n : NodeId} {r : Reg} (hn : g[n]? = some (.reg r)) (buf : Bytes) :
     Sim p g (fun _ => True) (writeAndCache defaultCache p g evC n r buf)
       (writeAndCache sinkCache p g evU n r buf) := by
@@ -398,8 +401,11 @@ theorem sim_writeAndCache (hD : Declared p g) {evC : NodeId → M Store Int}
     have hlen : buf.length = r.len := Classical.byContradiction h
     exact sim_bind (sim_regAddr hev r) (fun a hk => sim_writeAt hD hn hk hlen)
 
+theorem inSelRange_trivial {n : NodeId} (h : selRange g n = none) (v : Int) : InSelRange g n v := by
+  unfold InSelRange; rw [h]; trivial
+
 theorem sim_evalInt (fuel : Nat) :
-    ∀ n, Sim p g (fun _ => True) (evalInt defaultCache p g fuel n) (evalInt sinkCache p g fuel n) := by
+    ∀ n, Sim p g (InSelRange g n) (evalInt defaultCache p g fuel n) (evalInt sinkCache p g fuel n) := by
   induction fuel with
   | zero =>
     intro n
@@ -414,21 +420,24 @@ theorem sim_evalInt (fuel : Nat) :
       cases nd with
       | port => exact sim_fail _
       | command _ _ => exact sim_fail _
-      | integer pv => exact ih pv
+      | integer pv =>
+        refine sim_weaken (ih pv) (fun v _ => inSelRange_trivial ?_ v)
+        unfold selRange; rw [hn]
       | reg r =>
         dsimp only
         cases hk : r.kind with
         | int e s =>
           dsimp only
           exact sim_bind (sim_withCacheOrRead ih hn)
-            (fun bs _ => sim_lift _ (fun _ _ => trivial))
+            (fun bs hbs => sim_lift _ (fun v hv => intFromSlice_range hn hk hbs hv))
         | masked e s lsb msb =>
           dsimp only
+          have hnone : selRange g n = none := by unfold selRange; rw [hn]; dsimp only; rw [hk]
           refine sim_bind (sim_withCacheOrRead ih hn) (fun bs _ => ?_)
           refine sim_bind (sim_lift (P := fun _ => True) _ (fun _ _ => trivial)) (fun v _ => ?_)
           refine sim_bind (sim_lift (P := fun _ => True) _ (fun _ _ => trivial)) (fun lw _ => ?_)
           obtain ⟨l, w⟩ := lw
-          exact sim_pure _ trivial
+          exact sim_pure _ (inSelRange_trivial hnone _)
         | float _ => exact sim_fail _
         | string => exact sim_fail _
         | raw => exact sim_fail _
